@@ -106,11 +106,30 @@ def replay(fl, FA, clause, norm, vals):
     if clause == "elementwise":
         arr = np.array([a, b, c, 0.0, 1.0, 0.5])
         arr2 = np.array([b, c, a, 1.0, 0.0, 0.5])
+        keep, keep2 = arr.copy(), arr2.copy()
         try:
             got = np.asarray(n.compute(arr, arr2), dtype=float)
-            exp = np.array([T(u, v) for u, v in zip(arr, arr2)])
+            exp = np.array([T(u, v) for u, v in zip(keep, keep2)])
             ok = got.shape == exp.shape and all(FA.same(u, v) for u, v in zip(got, exp))
+            if not (np.array_equal(arr, keep) and np.array_equal(arr2, keep2)):
+                return {"failed": True, "expected": "operands unchanged", "observed": [arr.tolist(), arr2.tolist()], "call": f"{norm}().compute(array, array) modified its operands"}
+            # broadcasting: scalar x array, array x scalar, column x row (the shapes Activated.membership uses)
+            for u, v, what in [(np.float64(keep[0]), keep2, "scalar,array"), (keep, np.float64(keep2[0]), "array,scalar"), (keep.reshape(-1, 1), keep2.reshape(1, -1), "column,row")]:
+                g = np.asarray(n.compute(u, v), dtype=float)
+                e_ = np.vectorize(lambda p_, q_: float(T(p_, q_)))(*np.broadcast_arrays(u, v))
+                if g.shape != e_.shape or not all(FA.same(x1, x2) for x1, x2 in zip(g.ravel(), e_.ravel())):
+                    return {"failed": True, "expected": e_.tolist(), "observed": g.tolist(), "call": f"{norm}().compute({what})"}
             return {"failed": not ok, "expected": exp.tolist(), "observed": got.tolist(), "call": f"{norm}().compute(array, array)"}
         except Exception as ex:  # noqa
             return {"failed": True, "expected": "element-wise result", "observed": f"{type(ex).__name__}: {ex}", "call": f"{norm}().compute(array, array)"}
+    if clause == "all":      # directed native search used when the body leaves the verified subset: every clause on a special-value grid
+        grid = [0.0, 1.0, 0.5, 0.25, 0.75, 0.1, 0.9, 1e-300, 1e-17, 2.0 ** -53, 1.0 - 2.0 ** -53, 1.0 - 2.0 ** -10, 2.0 ** -10, 0.999, 0.4995, 0.5005]
+        clauses = ["formula", "range"] + ([] if norm == "UnboundedSum" else ["comm", "identity", "annihilator", "bound"]) + (["dual"] if norm in DUAL else [])
+        for u in grid:
+            for v in grid:
+                for cl in clauses:
+                    r = replay(fl, FA, cl, norm, {"a": u, "b": v, "c": 0.5})
+                    if r.get("failed"):
+                        return r
+        return replay(fl, FA, "elementwise", norm, {"a": 0.3, "b": 0.6, "c": 1.0})
     raise KeyError(clause)
